@@ -493,6 +493,8 @@ def gen_cases(tier, seed):
     exprsB = [e for n in range(NA + 1, NB + 1)
               for e in all_exprs(n, [("var", "x"), ("var", "a")], {"sum", "call", "quot"}, 3, memo)
               if depth(e) >= 2]
+    if quick:
+        exprsB = exprsB[::2]          # quick tier: every second expression of stream B
     n_exh = 0
     for e in exprsA + exprsB:
         for fr in subsets(names(e)):
@@ -500,7 +502,7 @@ def gen_cases(tier, seed):
             n_exh += 1
     # random structured
     rng = random.Random(seed * 7919 + 18)
-    nrand = 2500 if quick else 40000
+    nrand = 2000 if quick else 40000
     for _ in range(nrand):
         e = random_expr(rng, rng.randint(2, 4))
         ns = names(e)
@@ -509,7 +511,7 @@ def gen_cases(tier, seed):
             fr.append("z")            # declared free but absent
         cases.append({"expr": e, "free": fr, "supplier": "v"})
     # contract-violating stream: only model-vs-implementation agreement is checked
-    nmal = 400 if quick else 4000
+    nmal = 300 if quick else 4000
     n_mal = 0
     for i in range(nmal):
         e = random_expr(rng, rng.randint(1, 3))
@@ -529,9 +531,10 @@ def gen_cases(tier, seed):
     dist = {"corpus": n_corpus, "exhaustive": n_exh, "random": nrand, "contract_violating": n_mal,
             "exhaustive_scope": "A: all expressions with <= %d nodes over atoms {x, a, 2}, constructors "
                                 "{Sum, Product (1-3 children), Quotient, Power, Call f (0-3 args), LogicalNot}; "
-                                "B: all expressions with %d..%d nodes and depth >= 2 over atoms {x, a}, "
+                                "B: %s expressions with %d..%d nodes and depth >= 2 over atoms {x, a}, "
                                 "constructors {Sum, Call f, Quotient}; each x ALL subsets of its names "
-                                "(variables and function symbols) declared free" % (NA, NA + 1, NB),
+                                "(variables and function symbols) declared free"
+                                % (NA, "every second of the" if quick else "all", NA + 1, NB),
             "exhaustive_expressions": len(exprsA) + len(exprsB),
             "random_scope": "depth 2-4, 1-4 children, variables x y a b c, ints -2..3, functions f g, "
                             "each name free with probability 0.4"}
